@@ -55,6 +55,7 @@ func (l *Lexer) NextToken() token.Token {
 func (l *Lexer) nextInsideToken() token.Token {
 	var tok token.Token
 
+next:
 	l.skipWhitespace()
 	// every token is stamped with the line on which it starts (reading ahead
 	// over a following newline must not move it to the next line)
@@ -198,7 +199,9 @@ func (l *Lexer) nextInsideToken() token.Token {
 				break
 			}
 		}
-		return l.nextInsideToken()
+		// on to the token after the comment - without a call per comment line,
+		// which a long run of comment lines would turn into a stack overflow
+		goto next
 	case '[':
 		tok = l.newToken(token.LBRACKET)
 	case ']':
